@@ -182,6 +182,14 @@ def unit(p, item, tier, seed):
         check_pair(p, "operands-are-miters/different", m1, m2)
         check_pair(p, "miter-against-plain", m2, circgen.build(["p", "q"], [("z", G.XOR, ("p", "q"))], ["z"]))
         check_pair(p, "plain-against-miter", circgen.build(["p", "q"], [("z", G.XOR, ("p", "q"))], ["z"]), m2)
+        # every small pair of different shapes (differences of one, two, three and four; inputs and outputs)
+        def wires(n_in, n_out):
+            ins = [f"w{i}" for i in range(n_in)]
+            return circgen.build(ins, [("wg", G.NOT, (ins[0],))], ["wg"] + [ins[k % n_in] for k in range(n_out - 1)])
+
+        for ni1, no1, ni2, no2 in [(2, 1, 2, 3), (2, 3, 2, 1), (2, 2, 2, 4), (2, 1, 2, 5), (2, 5, 2, 1), (2, 2, 2, 3), (3, 2, 3, 5),
+                                   (1, 1, 3, 1), (3, 1, 1, 1), (2, 2, 4, 2), (1, 2, 2, 2), (1, 1, 5, 1), (2, 1, 4, 3), (3, 3, 1, 1)]:
+            check_pair(p, f"mismatch-{ni1}x{no1}-vs-{ni2}x{no2}", wires(ni1, no1), wires(ni2, no2))
         check_pair(p, "mismatch-inputs", a, circgen.build(["a"], [("g", G.NOT, ("a",))], ["g"]))
         check_pair(p, "mismatch-outputs", a, circgen.build(["a", "b"], [("g", G.AND, ("a", "b"))], ["g", "g"]))
     else:
